@@ -267,6 +267,11 @@ pub struct SimCfg {
     pub short_write: Vec<u16>,
     /// cost of one parent call in virtual ns
     pub cost_ns: u32,
+    /// signal interruptions: if the i-th poll() of the parent would block and
+    /// eintr[i] = k > 0, it returns -1/EINTR after k ms (at most half of its
+    /// timeout) instead
+    #[serde(default)]
+    pub eintr: Vec<u8>,
 }
 
 pub struct Sim {
@@ -293,6 +298,8 @@ pub struct Sim {
     pub clock_reads: u64,
     pub nread: usize,
     pub nwrite: usize,
+    pub npoll: usize,
+    pub eintr_hit: u32,
     pub short_reads_hit: u32,
     pub short_writes_hit: u32,
     pub verdict: Option<Verdict>,
@@ -341,6 +348,8 @@ impl Sim {
             clock_reads: 0,
             nread: 0,
             nwrite: 0,
+            npoll: 0,
+            eintr_hit: 0,
             short_reads_hit: 0,
             short_writes_hit: 0,
             verdict: None,
@@ -1009,6 +1018,9 @@ impl SimHooks for Sim {
         }
         let deadline = if timeout_ms < 0 { None } else { Some(self.now + timeout_ms as i64 * 1_000_000) };
         let mut mask = 0u32;
+        let pidx = self.npoll;
+        self.npoll += 1;
+        let mut interrupt_ms: i64 = self.cfg.eintr.get(pidx).copied().unwrap_or(0) as i64;
         loop {
             let mut cnt = 0;
             let mut rev = [-1i16; 3];
@@ -1062,6 +1074,21 @@ impl SimHooks for Sim {
             }
             if self.parent_blocked_first.is_none() {
                 self.parent_blocked_first = Some("poll");
+            }
+            if interrupt_ms > 0 {
+                // a signal handler runs in the parent while it is blocked here
+                let mut d = interrupt_ms * 1_000_000;
+                if timeout_ms > 0 {
+                    d = d.min(timeout_ms as i64 * 1_000_000 / 2);
+                }
+                interrupt_ms = 0;
+                if d > 0 {
+                    self.now += d;
+                    self.eintr_hit += 1;
+                    ip::set_errno(libc::EINTR);
+                    self.log(PKind::Poll, mask, timeout_ms as i64, -1, t_enter, rev, done_before);
+                    return -1;
+                }
             }
             match self.block_step(deadline) {
                 BlockStep::Progress => {
